@@ -221,73 +221,177 @@ if __name__ == "__main__":
 
 
 # --------------------------------------------------------------------------------------------------
-# C07: iteration over hash-ordered collections (sets / frozensets) in the package, by an `ast` walk
+# C07: iteration over hash-ordered collections (sets / frozensets) in the package, by an `ast` walk.
+#
+# This is a TRIPWIRE for the syntactic forms listed here, not a proof that no other form exists.  An expression counts as a set when
+# it is: a set display / comprehension; a call of set / frozenset; a name assigned or annotated as a set in the function, at module
+# level or at class level of the same file, or imported `from .mod import NAME` where mod defines NAME as a set; a PARAMETER annotated
+# as a set; an attribute `<anything>.x` where some `<anything>.x = <set>` / `x: Set[...]` exists in the package (by attribute name);
+# a call of a function or method of the package whose `return` is a set expression or whose return annotation is a set (by name);
+# | & - ^ of sets or of dict views; .union/.intersection/.difference/.symmetric_difference/.copy of a set; a conditional expression or
+# `or` / `and` with a set operand.  A set SITE is a set expression that is: iterated by for / comprehension / yield from; passed to
+# list / tuple / iter / next / enumerate / zip / map / filter / reversed / dict.fromkeys / str.join or unpacked with `*`; popped
+# (`s.pop()`); or passed to sorted / min / max together with a `key=` (ties are then broken by iteration order).
+
+_SET_ANN = ("Set[", "FrozenSet[", "AbstractSet[", "MutableSet[", "set[", "frozenset[")
+
+
+def _ann_is_set(ann):
+    import ast
+    if ann is None:
+        return False
+    txt = ast.unparse(ann)
+    if isinstance(ann, ast.Constant) and isinstance(ann.value, str):
+        txt = ann.value
+    txt = txt.strip("'\" ")
+    return any(t in txt for t in _SET_ANN) or txt in ("set", "frozenset", "Set", "FrozenSet", "AbstractSet", "MutableSet") or \
+        txt.split(".")[-1] in ("Set", "FrozenSet", "AbstractSet", "MutableSet")
+
 
 def _set_sites():
     import ast
     pkg = os.path.join(C.REPO, "graphtage")
-    sites = []
+    files = {}
+    for fn in sorted(os.listdir(pkg)):
+        if fn.endswith(".py"):
+            files[fn] = ast.parse(open(os.path.join(pkg, fn), encoding="utf-8").read())
 
-    def is_set_expr(e, setnames):
+    setattrs, setfuncs, modsets = set(), set(), {}
+
+    def is_set_expr(e, names):
         if isinstance(e, (ast.Set, ast.SetComp)):
             return True
         if isinstance(e, ast.Call) and isinstance(e.func, ast.Name) and e.func.id in ("set", "frozenset"):
             return True
-        if isinstance(e, ast.Name) and e.id in setnames:
+        if isinstance(e, ast.Call) and isinstance(e.func, ast.Name) and e.func.id in setfuncs:
             return True
-        if isinstance(e, ast.Attribute) and isinstance(e.value, ast.Name) and e.value.id == "self" and ("self." + e.attr) in setnames:
+        if isinstance(e, ast.Call) and isinstance(e.func, ast.Attribute) and e.func.attr in setfuncs:
             return True
+        if isinstance(e, ast.Name) and e.id in names:
+            return True
+        if isinstance(e, ast.Attribute) and e.attr in setattrs:
+            return True
+        if isinstance(e, ast.IfExp):
+            return is_set_expr(e.body, names) or is_set_expr(e.orelse, names)
+        if isinstance(e, ast.BoolOp):
+            return any(is_set_expr(v, names) for v in e.values)
+        if isinstance(e, ast.NamedExpr):
+            return is_set_expr(e.value, names)
         if isinstance(e, ast.BinOp) and isinstance(e.op, (ast.BitOr, ast.BitAnd, ast.Sub, ast.BitXor)):
             def view(x):   # dict views combine into a set: d.keys() & e.keys()
                 return isinstance(x, ast.Call) and isinstance(x.func, ast.Attribute) and x.func.attr in ("keys", "items")
             if view(e.left) or view(e.right):
                 return True
-            return is_set_expr(e.left, setnames) and is_set_expr(e.right, setnames)
-        if isinstance(e, ast.Call) and isinstance(e.func, ast.Attribute) and e.func.attr in ("union", "intersection", "difference", "symmetric_difference", "copy") and is_set_expr(e.func.value, setnames):
+            return is_set_expr(e.left, names) and is_set_expr(e.right, names)
+        if isinstance(e, ast.Call) and isinstance(e.func, ast.Attribute) and e.func.attr in ("union", "intersection", "difference", "symmetric_difference", "copy") and is_set_expr(e.func.value, names):
             return True
         return False
 
-    for fn in sorted(os.listdir(pkg)):
-        if not fn.endswith(".py"):
-            continue
-        tree = ast.parse(open(os.path.join(pkg, fn), encoding="utf-8").read())
-        # class-level knowledge: self.x assigned / annotated as a set anywhere in the file
-        selfsets = set()
-        for node in ast.walk(tree):
-            if isinstance(node, (ast.Assign, ast.AnnAssign)):
-                tgts = node.targets if isinstance(node, ast.Assign) else [node.target]
-                val = node.value
-                ann = getattr(node, "annotation", None)
-                ann_is_set = ann is not None and "Set[" in ast.unparse(ann)
+    def assigned(node):
+        """(targets, value, annotation-is-set) of an assignment statement"""
+        if isinstance(node, ast.Assign):
+            return node.targets, node.value, False
+        if isinstance(node, ast.AnnAssign):
+            return [node.target], node.value, _ann_is_set(node.annotation)
+        if isinstance(node, ast.AugAssign):
+            return [node.target], node.value, False
+        return [], None, False
+
+    def funcs_of(tree):
+        return [n for n in ast.walk(tree) if isinstance(n, (ast.FunctionDef, ast.AsyncFunctionDef))]
+
+    def local_names(func, base):
+        names = set(base)
+        a = func.args
+        for arg in a.posonlyargs + a.args + a.kwonlyargs + [x for x in (a.vararg, a.kwarg) if x]:
+            if _ann_is_set(arg.annotation):
+                names.add(arg.arg)
+        changed = True
+        while changed:
+            changed = False
+            for node in ast.walk(func):
+                tgts, val, ann = assigned(node)
                 for t in tgts:
-                    if isinstance(t, ast.Attribute) and isinstance(t.value, ast.Name) and t.value.id == "self":
-                        if ann_is_set or (val is not None and is_set_expr(val, set())):
-                            selfsets.add("self." + t.attr)
-        for func in [n for n in ast.walk(tree) if isinstance(n, (ast.FunctionDef, ast.AsyncFunctionDef))]:
-            names = set(selfsets)
-            for node in ast.walk(func):
-                if isinstance(node, (ast.Assign, ast.AnnAssign)):
-                    tgts = node.targets if isinstance(node, ast.Assign) else [node.target]
-                    ann = getattr(node, "annotation", None)
-                    ann_is_set = ann is not None and "Set[" in ast.unparse(ann)
+                    if isinstance(t, ast.Name) and t.id not in names and (ann or (val is not None and is_set_expr(val, names))):
+                        names.add(t.id)
+                        changed = True
+        return names
+
+    # ---- package-wide knowledge, to a fixed point: set-valued attributes (by attribute name), module / class level set names,
+    # functions that return a set (by function name)
+    for _ in range(4):
+        before = (len(setattrs), len(setfuncs), sum(len(v) for v in modsets.values()))
+        for fn, tree in files.items():
+            mods = modsets.setdefault(fn, set())
+            for node in ast.iter_child_nodes(tree):
+                tgts, val, ann = assigned(node)
+                for t in tgts:
+                    if isinstance(t, ast.Name) and (ann or (val is not None and is_set_expr(val, mods))):
+                        mods.add(t.id)
+                if isinstance(node, ast.ImportFrom) and node.module and node.level >= 1:
+                    src = modsets.get(node.module.split(".")[-1] + ".py", set())
+                    for al in node.names:
+                        if al.name in src:
+                            mods.add(al.asname or al.name)
+            for cls in [n for n in ast.walk(tree) if isinstance(n, ast.ClassDef)]:
+                for node in cls.body:
+                    tgts, val, ann = assigned(node)
                     for t in tgts:
-                        if isinstance(t, ast.Name) and (ann_is_set or (node.value is not None and is_set_expr(node.value, names))):
-                            names.add(t.id)
-            for node in ast.walk(func):
-                it = None
-                how = None
+                        if isinstance(t, ast.Name) and (ann or (val is not None and is_set_expr(val, mods))):
+                            setattrs.add(t.id)
+            for func in funcs_of(tree):
+                names = local_names(func, mods)
+                for node in ast.walk(func):
+                    tgts, val, ann = assigned(node)
+                    for t in tgts:
+                        if isinstance(t, ast.Attribute) and (ann or (val is not None and is_set_expr(val, names))):
+                            setattrs.add(t.attr)
+                    if isinstance(node, ast.Return) and node.value is not None and is_set_expr(node.value, names):
+                        setfuncs.add(func.name)
+                if _ann_is_set(func.returns):
+                    setfuncs.add(func.name)
+        if before == (len(setattrs), len(setfuncs), sum(len(v) for v in modsets.values())):
+            break
+    setfuncs -= {"__init__", "__new__", "__iter__", "__next__", "__enter__", "__exit__"}
+
+    ITER_FUNCS = ("list", "tuple", "iter", "next", "enumerate", "zip", "map", "filter", "reversed")
+    sites = []
+    for fn, tree in files.items():
+        scopes = [(f.name, f, local_names(f, modsets[fn])) for f in funcs_of(tree)]
+        inner = set()
+        for _, f, _n in scopes:
+            for n in ast.walk(f):
+                inner.add(id(n))
+        # module / class level code (outside every function) is a scope of its own
+        top = [n for n in ast.walk(tree) if id(n) not in inner and not isinstance(n, (ast.FunctionDef, ast.AsyncFunctionDef))]
+        work = [(name, list(ast.walk(f)), names) for name, f, names in scopes] + [("<module>", top, modsets[fn])]
+        for fname, nodes, names in work:
+            for node in nodes:
+                found = []
                 if isinstance(node, (ast.For, ast.AsyncFor)):
-                    it, how = node.iter, "for"
+                    found.append((node.iter, "for"))
                 elif isinstance(node, ast.comprehension):
-                    it, how = node.iter, "comprehension"
+                    found.append((node.iter, "comprehension"))
                 elif isinstance(node, ast.YieldFrom):
-                    it, how = node.value, "yield-from"
-                elif isinstance(node, ast.Call) and isinstance(node.func, ast.Name) and node.func.id in ("list", "tuple", "iter", "next", "enumerate") and node.args:
-                    it, how = node.args[0], node.func.id
-                elif isinstance(node, ast.Call) and isinstance(node.func, ast.Attribute) and node.func.attr == "join" and node.args:
-                    it, how = node.args[0], "join"
-                if it is not None and is_set_expr(it, names):
-                    sites.append([fn, func.name, how, ast.unparse(it)[:60]])
+                    found.append((node.value, "yield-from"))
+                elif isinstance(node, ast.Starred):
+                    found.append((node.value, "star"))
+                elif isinstance(node, ast.Call):
+                    f = node.func
+                    has_key = any(k.arg == "key" for k in node.keywords)
+                    if isinstance(f, ast.Name) and f.id in ITER_FUNCS:
+                        found += [(a, f.id) for a in node.args]
+                    elif isinstance(f, ast.Name) and f.id in ("sorted", "min", "max") and has_key and node.args:
+                        found.append((node.args[0], f.id + "-key"))
+                    elif isinstance(f, ast.Attribute) and f.attr == "join" and node.args:
+                        found.append((node.args[0], "join"))
+                    elif isinstance(f, ast.Attribute) and f.attr == "fromkeys" and node.args:
+                        found.append((node.args[0], "fromkeys"))
+                    elif isinstance(f, ast.Attribute) and f.attr == "pop" and not node.args and not node.keywords:
+                        found.append((f.value, "pop"))
+                for it, how in found:
+                    if is_set_expr(it, names):
+                        sites.append([fn, fname, how, ast.unparse(it)[:60]])
     return sorted(map(tuple, set(map(tuple, sites))))
 
 
@@ -371,44 +475,164 @@ def gen_formatter_tables():
 
 
 # --------------------------------------------------------------------------------------------------
-# C07: other sources of run-to-run variation or hidden state, by an `ast` walk: wall clock, randomness,
-# uninitialised memory, environment, id()-based decisions, interpreter-global settings, `global` statements
+# C07: other sources of run-to-run variation or hidden state, by an `ast` walk.  TRIPWIRE for these syntactic forms (not "every use"):
+#   * any import of time / datetime / random / secrets / uuid / threading / multiprocessing / concurrent / asyncio / signal / tempfile /
+#     socket / getpass / platform (plain, aliased, or `from m import x [as y]`), every call through such a module name or alias
+#     (attribute chains like `datetime.datetime.now()` included) and every call of a name imported from one of them;
+#   * `os.<attr>` for every attribute other than `os.path` / constants, under any alias of os, and names imported `from os import`;
+#   * np.empty / np.empty_like; sys.setrecursionlimit / setswitchinterval / settrace / setprofile / sys.argv / sys.flags.hash_randomization;
+#   * every call of id(); hash() / id / hash / object.__repr__ / repr used inside a `key=` argument, inside an ordering comparison
+#     (< <= > >=) or inside the arguments of sorted / min / max / .sort;
+#   * `global` statements; module-level names bound to a mutable container (display, dict() / list() / set() / defaultdict / Counter /
+#     OrderedDict / deque) that a function body mutates (subscript assignment / del, or .append/.add/.update/.setdefault/.pop/
+#     .clear/.extend/.insert/.remove/.discard/.popitem/.appendleft) - a cache that survives the invocation, with no `global` needed;
+#   * functools.lru_cache / functools.cache decorators.
 
 def _nondet_sites():
     import ast
     pkg = os.path.join(C.REPO, "graphtage")
-    MODS = {"time": "clock", "datetime": "clock", "random": "random", "secrets": "random", "uuid": "random"}
+    MODS = {"time": "clock", "datetime": "clock", "random": "random", "secrets": "random", "uuid": "random",
+            "threading": "concurrency", "multiprocessing": "concurrency", "concurrent": "concurrency", "asyncio": "concurrency",
+            "signal": "concurrency", "tempfile": "environment", "socket": "environment", "getpass": "environment", "platform": "environment"}
+    OS_PURE = {"path", "sep", "linesep", "devnull", "curdir", "pardir", "extsep", "altsep", "pathsep", "name", "PathLike", "fspath",
+               "SEEK_SET", "SEEK_CUR", "SEEK_END"}
+    MUTATORS = {"append", "add", "update", "setdefault", "pop", "clear", "extend", "insert", "remove", "discard", "popitem", "appendleft"}
+    CONTAINERS = {"dict", "list", "set", "defaultdict", "Counter", "OrderedDict", "deque", "WeakValueDictionary", "WeakKeyDictionary"}
     sites = []
+
+    def root_and_chain(e):
+        chain = []
+        while isinstance(e, ast.Attribute):
+            chain.append(e.attr)
+            e = e.value
+        return (e.id if isinstance(e, ast.Name) else None), list(reversed(chain))
+
     for fn in sorted(os.listdir(pkg)):
         if not fn.endswith(".py"):
             continue
         tree = ast.parse(open(os.path.join(pkg, fn), encoding="utf-8").read())
         funcs = [n for n in ast.walk(tree) if isinstance(n, (ast.FunctionDef, ast.AsyncFunctionDef))]
-        owner = {}
+        owner, parent = {}, {}
         for f in funcs:
             for n in ast.walk(f):
                 owner.setdefault(id(n), f.name)
         for n in ast.walk(tree):
+            for c in ast.iter_child_nodes(n):
+                parent[id(c)] = n
+        # ---- imports: local name -> (module, original name or None)
+        modalias, fromnames = {}, {}
+        for n in ast.walk(tree):
+            if isinstance(n, ast.Import):
+                for al in n.names:
+                    top = al.name.split(".")[0]
+                    if top in MODS or top == "os" or top in ("numpy", "sys", "functools"):
+                        modalias[al.asname or top] = top
+                    if top in MODS:
+                        sites.append((MODS[top] + "-import", fn, owner.get(id(n), "<module>"), "import " + al.name + (" as " + al.asname if al.asname else "")))
+            if isinstance(n, ast.ImportFrom) and n.module and n.level == 0:
+                top = n.module.split(".")[0]
+                if top in MODS or top == "os":
+                    kind = MODS.get(top, "environment")
+                    if top != "os" or any(a.name not in OS_PURE for a in n.names):
+                        sites.append((kind + "-import", fn, "<module>", "from " + n.module + " import " + ",".join(a.name for a in n.names)))
+                    for al in n.names:
+                        if top != "os" or al.name not in OS_PURE:
+                            fromnames[al.asname or al.name] = (top, al.name)
+                if top == "functools":
+                    for al in n.names:
+                        if al.name in ("lru_cache", "cache"):
+                            fromnames[al.asname or al.name] = ("functools", al.name)
+        # ---- module-level mutable containers
+        modstate = set()
+        for n in ast.iter_child_nodes(tree):
+            tgts = n.targets if isinstance(n, ast.Assign) else ([n.target] if isinstance(n, ast.AnnAssign) and n.value is not None else [])
+            v = getattr(n, "value", None)
+            mutable = isinstance(v, (ast.Dict, ast.List, ast.Set, ast.DictComp, ast.ListComp, ast.SetComp)) or \
+                (isinstance(v, ast.Call) and ((isinstance(v.func, ast.Name) and v.func.id in CONTAINERS) or
+                                              (isinstance(v.func, ast.Attribute) and v.func.attr in CONTAINERS)))
+            if mutable:
+                for t in tgts:
+                    if isinstance(t, ast.Name):
+                        modstate.add(t.id)
+
+        def ordering_context(n):
+            """inside key=..., an ordering comparison, or the arguments of sorted / min / max / .sort"""
+            x = n
+            while id(x) in parent:
+                p = parent[id(x)]
+                if isinstance(p, ast.keyword) and p.arg == "key":
+                    return "key="
+                if isinstance(p, ast.Compare) and any(isinstance(o, (ast.Lt, ast.LtE, ast.Gt, ast.GtE)) for o in p.ops):
+                    return "ordering-comparison"
+                if isinstance(p, ast.Call) and x is not p.func:
+                    pf = p.func
+                    if (isinstance(pf, ast.Name) and pf.id in ("sorted", "min", "max")) or (isinstance(pf, ast.Attribute) and pf.attr == "sort"):
+                        return "sorted/min/max"
+                if isinstance(p, (ast.FunctionDef, ast.AsyncFunctionDef, ast.ClassDef)):
+                    return None
+                x = p
+            return None
+
+        for n in ast.walk(tree):
             where = owner.get(id(n), "<module>")
             if isinstance(n, ast.Call):
                 f = n.func
-                if isinstance(f, ast.Attribute) and isinstance(f.value, ast.Name):
-                    if f.value.id in MODS:
-                        sites.append((MODS[f.value.id], fn, where, ast.unparse(f)))
-                    if f.value.id in ("np", "numpy") and f.attr in ("empty", "empty_like"):
-                        sites.append(("uninitialised-memory", fn, where, ast.unparse(f)))
-                    if f.value.id == "sys" and f.attr in ("setrecursionlimit", "setswitchinterval", "settrace", "setprofile"):
+                root, chain = root_and_chain(f)
+                if root is not None and chain:
+                    m = modalias.get(root)
+                    if m in MODS:
+                        sites.append((MODS[m], fn, where, ast.unparse(f)))
+                    if m == "numpy" or root in ("np", "numpy"):
+                        if chain[-1] in ("empty", "empty_like"):
+                            sites.append(("uninitialised-memory", fn, where, ast.unparse(f)))
+                    if (m == "sys" or root == "sys") and chain[-1] in ("setrecursionlimit", "setswitchinterval", "settrace", "setprofile"):
                         sites.append(("interpreter-global", fn, where, ast.unparse(f)))
-                    if f.value.id == "os" and f.attr in ("getenv", "putenv"):
-                        sites.append(("environment", fn, where, ast.unparse(f)))
-                if isinstance(f, ast.Name) and f.id == "id":
-                    sites.append(("id", fn, where, ast.unparse(n)[:50]))
-            if isinstance(n, ast.Attribute) and isinstance(n.value, ast.Name) and n.value.id == "os" and n.attr == "environ":
-                sites.append(("environment", fn, where, "os.environ"))
+                    if m == "functools" and chain[-1] in ("lru_cache", "cache"):
+                        sites.append(("memo", fn, where, ast.unparse(f)))
+                if isinstance(f, ast.Name):
+                    if f.id in fromnames:
+                        mod, orig = fromnames[f.id]
+                        kind = "memo" if mod == "functools" else MODS.get(mod, "environment")
+                        sites.append((kind, fn, where, f"{f.id}() = {mod}.{orig}"))
+                    if f.id == "id":
+                        sites.append(("id", fn, where, ast.unparse(n)[:50]))
+                    if f.id == "hash":
+                        ctx = ordering_context(n)
+                        if ctx:
+                            sites.append(("hash-order", fn, where, ctx + " " + ast.unparse(n)[:40]))
+                # mutation of a module-level container through a method
+                if isinstance(f, ast.Attribute) and isinstance(f.value, ast.Name) and f.value.id in modstate and f.attr in MUTATORS and where != "<module>":
+                    sites.append(("module-state", fn, where, f.value.id + "." + f.attr))
+            # functools.lru_cache / cache used as a bare decorator
+            if isinstance(n, (ast.FunctionDef, ast.AsyncFunctionDef)):
+                for d in n.decorator_list:
+                    r, ch = root_and_chain(d)
+                    if (isinstance(d, ast.Name) and fromnames.get(d.id, ("", ""))[0] == "functools") or \
+                            (r is not None and modalias.get(r) == "functools" and ch and ch[-1] in ("lru_cache", "cache")):
+                        sites.append(("memo", fn, n.name, "@" + ast.unparse(d)))
+            # a bare reference to id / hash / repr / object.__repr__ as a sort key
+            if isinstance(n, ast.keyword) and n.arg == "key":
+                v = n.value
+                txt = ast.unparse(v)
+                if txt in ("id", "hash", "repr", "object.__repr__") or "object.__repr__" in txt:
+                    sites.append(("address-order", fn, where, "key=" + txt[:40]))
+            if isinstance(n, ast.Attribute):
+                root, chain = root_and_chain(n)
+                if root is not None and modalias.get(root) == "os" and chain and chain[0] not in OS_PURE and not isinstance(parent.get(id(n)), ast.Attribute):
+                    sites.append(("environment", fn, where, "os." + ".".join(chain)))
+                if root is not None and (modalias.get(root) == "sys" or root == "sys") and chain and (chain[0] == "argv" or chain[:2] == ["flags", "hash_randomization"]) \
+                        and not isinstance(parent.get(id(n)), ast.Attribute):
+                    sites.append(("environment", fn, where, "sys." + ".".join(chain)))
+            if isinstance(n, ast.Name) and n.id in fromnames and fromnames[n.id][0] == "os" and isinstance(n.ctx, ast.Load):
+                sites.append(("environment", fn, where, f"{n.id} = os.{fromnames[n.id][1]}"))
             if isinstance(n, ast.Global):
                 sites.append(("global-statement", fn, where, ",".join(n.names)))
-            if isinstance(n, (ast.ImportFrom,)) and n.module in MODS:
-                sites.append((MODS[n.module] + "-import", fn, "<module>", "from " + n.module + " import " + ",".join(a.name for a in n.names)))
+            # subscript assignment / deletion on a module-level container inside a function
+            if isinstance(n, (ast.Assign, ast.AugAssign, ast.Delete)) and where != "<module>":
+                tgts = n.targets if isinstance(n, (ast.Assign, ast.Delete)) else [n.target]
+                for t in tgts:
+                    if isinstance(t, ast.Subscript) and isinstance(t.value, ast.Name) and t.value.id in modstate:
+                        sites.append(("module-state", fn, where, t.value.id + "[...]" + (" del" if isinstance(n, ast.Delete) else " =")))
     return sorted(set(sites))
 
 
